@@ -27,7 +27,7 @@ TRUSTED = [
     "listed scorer functions, the `missing=` constant, and the shape of every `return` of a scorer entry point; fail-closed on unlisted scorer classes, "
     "unclassified receivers and non-constant policies",
     "that each numeric kernel (torch/BLAS/scipy products, neighbourhood selection, embedding look-ups, the `implicit` library) is pointwise is NOT proved: "
-    "it is observed by the metamorphic runs (permutation, two halves, repetition, a fresh query object) evaluated inside Coq on exact rationals; tolerance of the "
+    "it is observed by the metamorphic runs (permutation, two halves, every candidate alone, repetition, a fresh query object) evaluated inside Coq on exact rationals; tolerance of the "
     "comparisons ACROSS evaluation paths (permuted list, halves against the full list: single-precision products computed by a different BLAS / torch kernel "
     "when the list size changes, error ~ eps32 * sum|terms|, not relative to a result with cancellation): |x - y| <= 2^-16 * max(1, |x|, |y|) "
     "(Model/C04_scatter.v `tol_meta`, `score_close`; the same formula in the Python oracle); exact equality for repeated calls, for the call made again "
@@ -38,7 +38,10 @@ TRUSTED = [
     "correspondence harness harness/props/c04.py + harness/c04_impl.py (construction of datasets, queries and candidate lists; exact float->rational conversion; "
     "reading the caller's query and candidate list back after every call: the history's (item, rating) pairs are compared inside Coq (`kept_ok`), the remaining "
     "fields, storage types, object identity and raw buffers by the harness, entering the Coq term as one flag per call)",
-    "HPF (hpfrec not installed) is covered by the sites table only",
+    "scan of the scorers' configuration classes for integer fields (harness/translate/c04.py `config_int_fields` -> Gen/C04_sites.v): classes named *Config* or "
+    "referred to by a `config:` annotation in the scorer files, fields whose annotation mentions an integer type outside Literal[...]; fail-closed on "
+    "unresolvable bases; Model/C04_scatter.v `explored_int_fields` is compared with the generator's KNOBS table on every run",
+    "HPF (hpfrec not installed) is covered by the sites table only (its integer field is listed as undriven)",
 ]
 ASSUMPTIONS = [
     "candidate lists contain distinct item identifiers",
@@ -46,8 +49,12 @@ ASSUMPTIONS = [
 ]
 RULE = ("structured generator: one scorer x configuration per case (bias: entity subsets/damping; popularity: 3 score modes; known-rating: score x source; "
         "item/user k-NN: both feedback modes, small max_nbrs so the truncating path is taken, min_nbrs 1-2; BiasedMF/ImplicitMF: each user-embedding policy, "
-        "use_ratings; FunkSVD with/without range; BiasedSVD; FlexMF explicit/implicit, 1-2 epochs; implicit ALS/BPR) trained on a random 3-9 x 3-10 "
-        "half-star dataset (optionally with users/items without data); 3-5 queries per case drawn from id / history / both / neither, known and unknown users, "
+        "use_ratings; FunkSVD with/without range; BiasedSVD; FlexMF explicit/implicit, 1-2 epochs; implicit ALS/BPR; EVERY integer field of a scorer "
+        "configuration class -- the list is regenerated from the source, theorem int_fields_explored -- set to small values: item-kNN block_size 1-3, FlexMF "
+        "batch_size 1-8 (fewer than the known candidates of a list), negative_count, n_iter, embedding sizes, epochs) trained on a random 3-9 x 3-10 "
+        "or (half of the cases) 8-20 x 6-14 half-star dataset (optionally with users/items without data); RATING VALUES engineered so that exact zeros occur "
+        "inside the scorers (two thirds of the cases: profiles of users / of items / the whole table symmetric about a half-star mean that some rating hits, "
+        "now and then all ratings of a user equal; a third of the non-empty query histories likewise); 3-5 queries per case drawn from id / history / both / neither, known and unknown users, "
         "histories with unknown items or empty, histories stored as writable float32 / float64 NumPy arrays, Python lists, Arrow arrays or a torch tensor, optionally with a second "
         "(timestamp) field; candidate lists with unknown items, empty lists, extra fields, ordered lists, lists given by item number against the dataset vocabulary; "
         "PROVENANCE of the candidate list (base / repeat / first half) and of the history as a generated dimension: built from identifiers, from item numbers or both "
@@ -55,7 +62,7 @@ RULE = ("structured generator: one scorer x configuration per case (bias: entity
         "vocabulary of a filtered subset, then 0-3 steps out of ids() / numbers() (caches), pickle, deepcopy, to_df/from_df, to_arrow/from_arrow with and without numbers, "
         "copy constructor, clone, slice, take; a seventh call with a FRESH query object whose history and candidates are given plainly by identifier; "
         "integer or string identifiers; ONE query object per query is handed to the base call, the repeated call (same candidate list object too), the permuted call, "
-        "the two halves and once more at the end, and after every call the query (user, history ids and every field, storage types, the supplied arrays bit for bit) "
+        "the two halves, EVERY candidate ALONE (at most 5 one-item calls per query) and once more at the end, and after every call the query (user, history ids and every field, storage types, the supplied arrays bit for bit) "
         "and the candidate list are compared with what was supplied; non-trivial = the scorer trained, at least one call returned >= 2 finite scores and at "
         "least one candidate list contained an unknown item or the query an unknown user/history item; distinct = by hash of the case")
 
@@ -68,8 +75,16 @@ def close(x, y):
 
 
 def translate():
+    import re
     from translate import c04 as t
     from translate.pyq import TranslateError as TE
+    # the Coq mirror of KNOBS / UNDRIVEN is what theorem int_fields_explored speaks about: it must BE this table
+    text = (common.COQ / "Model" / "C04_scatter.v").read_text()
+    for name, table in (("explored_int_fields", list(KNOBS)), ("undriven_int_fields", UNDRIVEN)):
+        m = re.search(r"Definition " + name + r" [^=]*:=\s*\[(.*?)\]%string\.", text, re.S)
+        got = re.findall(r'\("(\w+)", "(\w+)"\)', m.group(1)) if m else None
+        if got is None or sorted(got) != sorted(table):
+            raise TranslateError(f"Model/C04_scatter.v {name} is not the table of harness/props/c04.py: {got} vs {sorted(table)}")
     try:
         return t.translate(common.SRC)
     except TE as e:
@@ -128,8 +143,87 @@ def gen_scorer(rng):
     return c
 
 
+# Integer fields of the scorers' configuration classes and the SMALL values the generator gives them, so that whatever path
+# such a field gates (blocks, batches, truncated neighbourhoods, chunked products) runs on the small datasets of the cases.
+# (configuration class, field) -> (key in the case's "knobs", values).  Gen/C04_sites.v `config_int_fields` lists the fields
+# the source HAS (regenerated on every run); Model/C04_scatter.v `explored_int_fields` mirrors this table (compared by
+# `translate`), theorem `int_fields_explored` fails when the source gains an integer field that is not here.
+KNOBS = {
+    ("ItemKNNConfig", "max_nbrs"): ("max_nbrs", [1, 2, 3, 20]),
+    ("ItemKNNConfig", "min_nbrs"): ("min_nbrs", [1, 1, 2]),
+    ("ItemKNNConfig", "save_nbrs"): ("save_nbrs", [None, None, 2, 4]),
+    ("ItemKNNConfig", "block_size"): ("block_size", [1, 2, 3, 250]),
+    ("UserKNNConfig", "max_nbrs"): ("max_nbrs", [1, 2, 3, 20]),
+    ("UserKNNConfig", "min_nbrs"): ("min_nbrs", [1, 1, 2]),
+    ("ALSConfig", "embedding_size"): ("k", [1, 2, 3, 4]),
+    ("ALSConfig", "epochs"): ("epochs", [1, 2]),
+    ("FunkSVDConfig", "features"): ("k", [1, 2, 3]),
+    ("FunkSVDConfig", "epochs"): ("epochs", [1, 2, 3]),
+    ("BiasedSVDConfig", "embedding_size"): ("k", [1, 2]),
+    ("BiasedSVDConfig", "n_iter"): ("n_iter", [1, 2, 3]),
+    ("FlexMFConfigBase", "embedding_size"): ("k", [1, 2, 3]),
+    ("FlexMFConfigBase", "batch_size"): ("batch_size", [1, 2, 3, 5, 8, 8192]),
+    ("FlexMFConfigBase", "epochs"): ("epochs", [1, 2]),
+    ("FlexMFImplicitConfig", "negative_count"): ("negative_count", [1, 2]),
+}
+# integer fields of components the harness cannot drive (hpfrec is not installed: HPF is covered by the sites table only)
+UNDRIVEN = [("HPFConfig", "embedding_size")]
+# scorer of the generator -> configuration classes whose integer fields it takes
+KNOB_CLASSES = {
+    "item-knn": ["ItemKNNConfig"], "user-knn": ["UserKNNConfig"], "biased-mf": ["ALSConfig"], "implicit-mf": ["ALSConfig"],
+    "funksvd": ["FunkSVDConfig"], "biased-svd": ["BiasedSVDConfig"], "flexmf-explicit": ["FlexMFConfigBase"],
+    "flexmf-implicit": ["FlexMFConfigBase", "FlexMFImplicitConfig"],
+}
+# fields drawn by gen_scorer from the main stream already (kept there so that earlier cases keep their values)
+KNOBS_MAIN = {"max_nbrs", "min_nbrs", "save_nbrs", "k", "epochs"}
+
+
+def gen_knobs(r, scorer):
+    """the integer configuration fields not drawn by gen_scorer, from a fork of the case stream"""
+    out = {}
+    for (cls, _field), (key, values) in KNOBS.items():
+        if cls in KNOB_CLASSES.get(scorer, []) and key not in KNOBS_MAIN:
+            out[key] = r.choice(values)
+    return out
+
+
+HALF = Fraction(1, 2)
+
+
+def centred_profile(r, n):
+    """n half-star ratings whose mean is itself a half-star value m and is HIT by at least one of them (n >= 1): pairs m-d / m+d and
+    the rest m, so that `rating - mean` is exactly 0 somewhere whatever the precision (m * n / n is exact in float32); now and
+    then all n are equal."""
+    m = HALF * r.randint(2, 9)                                   # 1.0 .. 4.5
+    room = int(min(m - HALF, 5 - m) / HALF)                      # largest d (in half stars) with 0.5 <= m-d, m+d <= 5
+    pairs = 0 if r.chance(1, 6) or n < 2 else (r.randint(0, 1) if n == 2 else r.randint(1, (n - 1) // 2))
+    vals = []
+    for _ in range(pairs):
+        d = HALF * r.randint(1, max(1, room))
+        vals += [m - d, m + d]
+    vals += [m] * (n - len(vals))
+    return r.shuffle(vals)
+
+
+def centre_ratings(r, ratings, axis):
+    """rewrite the rating values (the sparsity pattern stays) so that, for about two thirds of the users (axis 0) / items (axis 1),
+    the profile is a `centred_profile`; axis 2: the whole table"""
+    groups = {}
+    for k, row in enumerate(ratings):
+        groups.setdefault(0 if axis == 2 else row[axis], []).append(k)
+    for g in sorted(groups):
+        if axis == 2 or r.chance(2, 3):
+            for k, v in zip(groups[g], centred_profile(r, len(groups[g]))):
+                ratings[k][2] = fjson(v)
+
+
 def gen_case(rng, tier):
     nu, ni = rng.randint(3, 9), rng.randint(3, 10)
+    # half of the cases on a larger dataset (neighbourhood scorers rarely find a neighbour with positive similarity among 3-9
+    # users: nearly all their scores are missing there, and paths that need several contributing neighbours never run)
+    rs = rng.fork("size")
+    if rs.chance(1, 2):
+        nu, ni = rs.randint(8, 20), rs.randint(6, 14)
     uids = rng.sample(list(range(1, 60)), nu)
     iids = rng.sample(list(range(100, 180)), ni)
     dens = rng.choice([4, 6, 8])
@@ -172,6 +266,16 @@ def gen_case(rng, tier):
         r3 = rng.fork(f"provenance-{len(queries)}")
         q["cand_prov"] = gen_prov(r3, by_number)
         q["hist_prov"] = gen_prov(r3, False)
+        # every candidate (at most 5 of a longer list) is also scored ALONE: the strongest probe of "not on which other candidates
+        # accompany it" -- a one-item call takes whatever path a list-size / stored-entry count threshold selects for tiny inputs
+        r4 = rng.fork(f"singles-{len(queries)}")
+        q["singles"] = r4.sample(list(range(len(cands))), min(5, len(cands)))
+        # a history whose ratings hit their own mean exactly (centred value 0)
+        r5 = rng.fork(f"history-profile-{len(queries)}")
+        if hist and r5.chance(1, 3):
+            for h, v in zip(hist, centred_profile(r5, len(hist))):
+                h[1] = fjson(v)
+            q["hist_profile"] = "centred"
         queries.append(q)
     # the other vocabularies lists are built against: a catalogue (superset, numbering differs) and a filtered subset
     rc = rng.fork("catalogue")
@@ -181,9 +285,17 @@ def gen_case(rng, tier):
     if not reorder:
         cat = rc.shuffle(cat)
     subset = sorted(rc.sample(list(items), rc.randint(1, len(items))))
-    return {"users": users, "items": items, "ratings": ratings, "seed": rng.randint(0, 2**31 - 1),
+    # rating values engineered so that EXACT zeros occur inside the scorers (a rating equal to its user's / item's / the global
+    # mean, users whose ratings are all equal): the sparsity pattern is the one drawn above
+    rp = rng.fork("profiles")
+    profiles = rp.weighted([("random", 3), ("user-centred", 3), ("item-centred", 2), ("global-centred", 1)])
+    if profiles != "random":
+        centre_ratings(rp, ratings, {"user-centred": 0, "item-centred": 1, "global-centred": 2}[profiles])
+    case = {"users": users, "items": items, "ratings": ratings, "seed": rng.randint(0, 2**31 - 1),
             "ids": rng.weighted([("int", 3), ("str", 1)]), "scorer": gen_scorer(rng), "queries": queries,
-            "catalogue": {"ids": cat, "reorder": reorder}, "subset": subset}
+            "catalogue": {"ids": cat, "reorder": reorder}, "subset": subset, "profiles": profiles}
+    case["scorer"].update(gen_knobs(rng.fork("knobs"), case["scorer"]["scorer"]))
+    return case
 
 
 def gen_prov(r, by_number):
@@ -215,6 +327,12 @@ def run_impl(case):
 # ---------------------------------------------------------------------------------------------
 
 KINDS = ("base", "repeat", "perm", "half_a", "half_b", "again")
+
+
+def sequence(c):
+    """the calls made with ONE query object, in the order they were made: [(label, observation)]"""
+    singles = [(f"single-{k}", o) for k, o in enumerate(c.get("singles", []))]
+    return [(k, c[k]) for k in KINDS[:5]] + singles + [("again", c["again"])]
 
 
 def unknown_policy(case):
@@ -293,7 +411,7 @@ def coq_term(case, obs):
                 parts.append(c_resolves(obs, c[k]["built"], c[k]["journey"], kids, c[k]["resolved"]))
         if c.get("hist_resolved") is not None and q["history"] is not None:
             parts.append(c_resolves(obs, c["hist_built"], c["hist_journey"], [h[0] for h in q["history"]], c["hist_resolved"]))
-        if any(c[k]["error"] or c[k].get("type") != "ItemList" or (c[k]["scores"] is None and c[k]["ids"]) for k in KINDS + ("fresh",)):
+        if any(o["error"] or o.get("type") != "ItemList" or (o["scores"] is None and o["ids"]) for _, o in sequence(c) + [("fresh", c["fresh"])]):
             parts.append("false")
             continue
         ids = q["items"]
@@ -303,7 +421,9 @@ def coq_term(case, obs):
                f"c_base := {c_obs(c['base'])}; c_repeat := {c_obs(c['repeat'])}; c_permuted := {c_obs(c['perm'])}; "
                f"c_a := {c_obs(c['half_a'])}; c_b := {c_obs(c['half_b'])}; c_again := {c_obs(c['again'])}; c_fresh := {c_obs(c['fresh'])} |}}")
         parts.append(f"call_kept_ok tol_meta {unknown_policy(case)} {vocab} {rec} {c_hist(c['supplied'])} "
-                     + clist([c[k] for k in KINDS], lambda o: f"({c_hist(o['query_after'])}, {'true' if rest_kept(c['supplied'], o) else 'false'})"))
+                     + clist([o for _, o in sequence(c)], lambda o: f"({c_hist(o['query_after'])}, {'true' if rest_kept(c['supplied'], o) else 'false'})"))
+        if c.get("singles"):
+            parts.append(f"singles_ok tol_meta {c_obs(c['base'])} {clist([ids[j] for j in q['singles']], cz)} {clist(c['singles'], c_obs)}")
     return "(" + ")\n && (".join(parts) + ")" if parts else "true"
 
 
@@ -333,9 +453,10 @@ def inputs_kept(name, case, q, c):
         got = None if hs is None else {"ids": hs["ids"], "rating": hs["fields"].get("rating", [])}
         if got != want or sup.get("user") != want_user or hs["len"] != len(q["history"]):
             v.append((f"{name}:history-not-as-constructed:{form}", f"{describe(case, q)}: a history built from {want} ({form}) reads {sup}"))
-    for k in KINDS:
-        a = c[k]["query_after"]
-        where = f"after the {k} call (calls so far on this query object: {', '.join(KINDS[: KINDS.index(k) + 1])})"
+    labels = [k for k, _ in sequence(c)]
+    for n, (k, o) in enumerate(sequence(c)):
+        a = o["query_after"]
+        where = f"after the {k} call (calls so far on this query object: {', '.join(labels[: n + 1])})"
         if "unreadable" in a:
             v.append((f"{name}:history-modified:{form}", f"{describe(case, q)}: the query cannot be read back {where}: {a['unreadable']}"))
             break
@@ -381,6 +502,8 @@ def oracle(case, obs):
         ids = q["items"]
         expect = {"base": ids, "repeat": ids, "again": ids, "perm": [ids[j] for j in q["perm"]],
                   "half_a": ids[: q["split"]], "half_b": ids[q["split"]:], "fresh": ids}
+        expect.update({f"single-{n}": [ids[j]] for n, j in enumerate(q.get("singles", []))})
+        every = dict(sequence(c) + [("fresh", c["fresh"])])
         bad = False
         # every list handed to the scorer resolves, in the dataset vocabulary, to the numbers of ITS identifiers -- however it was
         # built and whatever round trips it made
@@ -391,8 +514,7 @@ def oracle(case, obs):
                 v.append((f"itemlist:resolves-other-items:history:{travel_tag(hj)}",
                           f"a history list of items {[h[0] for h in q['history']]} ({how(hb, hj)}) resolves in the vocabulary {obs['items']} to the numbers "
                           f"{c['hist_resolved']}; its identifiers have the numbers {want}"))
-        for k in KINDS + ("fresh",):
-            o = c[k]
+        for k, o in every.items():
             cb, cj = o.get("built", "ids"), o.get("journey", [])
             if "resolved" in o and o["resolved"] != [number.get(i) for i in expect[k]]:
                 v.append((f"itemlist:resolves-other-items:candidates:{travel_tag(cj)}",
@@ -460,14 +582,13 @@ def oracle(case, obs):
             else:
                 v.append((f"{name}:fresh-query-differs", f"{describe(case, q)}: a fresh query object of the same content is scored {show(c['fresh']['scores'])} "
                           f"on the items {ids}, the query object used for the earlier calls {show(c['again']['scores'])}"))
-        for k in ("perm", "half_a", "half_b"):
-            for i, s in zip(c[k]["ids"], c[k]["scores"] or []):
+        num = lambda x: None if x is None else float(fparse(x))
+        for k, o in [(k, every[k]) for k in ("perm", "half_a", "half_b")] + [("single", o) for o in c.get("singles", [])]:
+            for i, s in zip(o["ids"], o["scores"] or []):
                 w = base[i]
-                if (s is None) != (w is None):
-                    v.append((f"{name}:depends-on-companions:{k}", f"{describe(case, q)}: item {i} scored {s} in the {k} list but {w} in the full list {ids}"))
-                    break
-                if s is not None and not close(fparse(s), fparse(w)):
-                    v.append((f"{name}:depends-on-companions:{k}", f"{describe(case, q)}: item {i} scored {float(fparse(s))} in the {k} list {c[k]['ids']} but {float(fparse(w))} in the full list {ids}"))
+                if (s is None) != (w is None) or (s is not None and not close(fparse(s), fparse(w))):
+                    v.append((f"{name}:depends-on-companions:{k}", f"{describe(case, q)}: item {i} scored {num(s)} in the {k} list {o['ids']} but {num(w)} "
+                              f"in the full list {ids}"))
                     break
     seen, out = set(), []
     for k, w in v:
@@ -491,9 +612,19 @@ def counters(case, obs):
     s = case["scorer"]
     yield "scorer=" + s["scorer"]
     yield "ids=" + case.get("ids", "int")
-    for k in ("feedback", "user_embeddings", "score", "source", "loss"):
+    for k in ("feedback", "user_embeddings", "score", "source", "loss", "block_size", "batch_size", "n_iter", "negative_count"):
         if k in s:
             yield f"{s['scorer']}.{k}={s[k]}"
+    yield "profiles=" + case.get("profiles", "random")
+    yield "dataset=" + ("larger (8-20 users)" if len(case["users"]) >= 10 else "small")
+    # a training rating equal to its user's mean (centred value exactly 0), in single precision as the scorers compute it
+    byu = {}
+    for r in case["ratings"]:
+        byu.setdefault(r[0], []).append(fparse(r[2]))
+    if any(sum(v) / len(v) in v and len(set(v)) > 1 for v in byu.values()):
+        yield "training-rating-equals-user-mean"
+    if any(len(set(v)) == 1 and len(v) > 1 for v in byu.values()):
+        yield "training-user-with-constant-ratings"
     if obs.get("train_error"):
         yield "train-error"
         return
@@ -512,6 +643,14 @@ def counters(case, obs):
                 yield "history-extra-field"
             if q["history"] and all(h[0] in known for h in q["history"]):
                 yield "history-all-known=" + q.get("hist_form", "f32")
+        if q.get("hist_profile"):
+            yield "history-rating-equals-its-mean"
+        if c.get("singles"):
+            yield "one-item-calls=" + str(len(c["singles"]))
+            if any(not o["error"] and o.get("scores") and o["scores"][0] is not None for o in c["singles"]):
+                yield "one-item-call-with-a-score"
+        if "batch_size" in s and sum(1 for i in q["items"] if i in known) > s["batch_size"] and any(i not in known for i in q["items"]):
+            yield "more-known-candidates-than-batch_size+unknown-item"
         if not q["items"]:
             yield "empty-candidate-list"
         if any(i not in known for i in q["items"]):
